@@ -75,7 +75,7 @@ type sys struct {
 	mgrs     []*resources.LocalSharedManager
 	timeouts []time.Duration
 	holder   map[int]int // variable -> context whose section body is running and has accessed it (mutual exclusion oracle)
-	db       *badger.DB // non-nil: every sharer's handle is wrapped in Persistent (in-memory badger)
+	db       *badger.DB  // non-nil: every sharer's handle is wrapped in Persistent (in-memory badger)
 	progs    [][]section
 	hist     []histOp
 	done     int
@@ -215,7 +215,13 @@ func (s *sys) runCtx(c int) {
 	var params []distsys.MPCalContextConfigFn
 	var req []string
 	for v := 0; v < s.nVars; v++ {
-		var res distsys.ArchetypeResource = s.mgrs[v].MakeLocalShared()
+		var res distsys.ArchetypeResource
+		if s.db == nil {
+			res = s.mgrs[v].MakeLocalShared()
+		} else {
+			// as raftkvs binds currentTerm/votedFor when it persists: the shared variable behind a Persistent wrapper
+			res = resources.MakePersistent(fmt.Sprintf("v%d-c%d", v, c), s.db, s.mgrs[v].MakeLocalShared())
+		}
 		params = append(params, distsys.EnsureArchetypeRefParam(fmt.Sprintf("v%d", v), res))
 		req = append(req, fmt.Sprintf("A.v%d", v))
 	}
